@@ -449,6 +449,10 @@ func evalChain(p ast.Position, scope *stateful.Scope, stck *stack) error {
 			}
 		}
 		if describer.HasProperty(name) {
+			if rd, ok := describer.(*ReflectionDescriber); ok && !rd.canReadProperty(name) {
+				// For example `.groupBy` without parentheses.
+				return errorf(p, "property %s of %T cannot be read, it can only be set by calling it", name, l)
+			}
 			stck.Push(describer.Property(name))
 		} else {
 			return errorf(p, "object %T has no property %s", l, name)
@@ -805,6 +809,13 @@ func (r *ReflectionDescriber) HasProperty(name string) bool {
 		return ok
 	}
 	_, ok = r.properties[name]
+	return ok
+}
+
+// canReadProperty reports whether the property is backed by a field.
+// Properties set by property methods cannot be read.
+func (r *ReflectionDescriber) canReadProperty(name string) bool {
+	_, ok := r.properties[capitalizeFirst(name)]
 	return ok
 }
 
